@@ -10,6 +10,10 @@ package sign
 //@   requires r.PublicKey != nil && r.BigR != nil
 //@   assert_at[C01] ResultRound "return r.ResultRound(signature)": ecdsa_valid(signature.R, signature.S, r.PublicKey, r.Message)
 //@   assert_at[C01] ResultRound "return r.ResultRound(signature)": typeis(arg1, *ecdsa.Signature) && arg1.(*ecdsa.Signature) == signature
+// refinement of the interface contract of round.Round.Finalize (what the handler relies on)
+//@   ensures result1 == nil ==> result0 != nil
+//@   ensures typeis(result0, *round.Abort) ==> result0.(*round.Abort).Err != nil
+//@   ensures typeis(result0, *round.Output) ==> result0.(*round.Output).Result != nil
 
 // ---- start function (C20): a session is created only for non-nil key material, a non-empty message and a signer
 // set that is duplicate-free, contains this party, has more than threshold members and only shareholders.
@@ -114,6 +118,11 @@ package sign
 //@   requires sg1ok(r) && sgall(r) && out != nil && !closed(out)
 // (induction on the session object) on success the next round starts from the state invariant its methods assume
 //@   ensures result1 == nil ==> (typeis(result0, *round2) && sg2ok(result0.(*round2)) && result0.(*round2).round1 == r && result0.(*round2).GammaShare != nil && result0.(*round2).KShare != nil && result0.(*round2).KNonce != nil && result0.(*round2).GNonce != nil)
+// refinement of the interface contract of round.Round.Finalize (what the handler relies on)
+//@   ensures !closed(out)
+//@   ensures result1 == nil ==> result0 != nil
+//@   ensures typeis(result0, *round.Abort) ==> result0.(*round.Abort).Err != nil
+//@   ensures typeis(result0, *round.Output) ==> result0.(*round.Output).Result != nil
 //@ func (*round2).Finalize
 //@   nopanic[C05]
 //@   use bits
@@ -121,6 +130,11 @@ package sign
 //@   requires forall(j, party.ID, inslice(r.Helper.partyIDs, j) ==> (r.K[j] != nil && r.K[j].c != nil && r.G[j] != nil && r.G[j].c != nil)) && r.BigGammaShare[r.Helper.info.SelfID] != nil
 // (induction on the session object) on success the next round starts from the state invariant its methods assume
 //@   ensures result1 == nil ==> (typeis(result0, *round3) && sg3ok(result0.(*round3)) && result0.(*round3).round2 == r && result0.(*round3).DeltaShareBeta != nil && result0.(*round3).ChiShareBeta != nil)
+// refinement of the interface contract of round.Round.Finalize (what the handler relies on)
+//@   ensures !closed(out)
+//@   ensures result1 == nil ==> result0 != nil
+//@   ensures typeis(result0, *round.Abort) ==> result0.(*round.Abort).Err != nil
+//@   ensures typeis(result0, *round.Output) ==> result0.(*round.Output).Result != nil
 //@ func (*round3).Finalize
 //@   nopanic[C05]
 //@   use bits
@@ -132,6 +146,11 @@ package sign
 //@   loop 2: invariant DeltaShare != nil && ChiShare != nil && fresh(DeltaShare) && fresh(ChiShare)
 // (induction on the session object) on success the next round starts from the state invariant its methods assume
 //@   ensures result1 == nil ==> (typeis(result0, *round4) && sg4ok(result0.(*round4)) && result0.(*round4).round3 == r && result0.(*round4).ChiShare != nil)
+// refinement of the interface contract of round.Round.Finalize (what the handler relies on)
+//@   ensures !closed(out)
+//@   ensures result1 == nil ==> result0 != nil
+//@   ensures typeis(result0, *round.Abort) ==> result0.(*round.Abort).Err != nil
+//@   ensures typeis(result0, *round.Output) ==> result0.(*round.Output).Result != nil
 //@ func (*round4).Finalize
 //@   nopanic[C05]
 //@   requires sg4ok(r) && out != nil && !closed(out) && r.KShare != nil && r.ChiShare != nil && len(r.Message) > 0
@@ -139,7 +158,16 @@ package sign
 //@   loop 1: invariant Delta != nil && BigDelta != nil
 // (induction on the session object) on success the next round starts from the state invariant its methods assume
 //@   ensures (result1 == nil && typeis(result0, *round5)) ==> (result0.(*round5).round4 == r && result0.(*round5).R != nil && result0.(*round5).BigR != nil && result0.(*round5).SigmaShares != nil)
+// refinement of the interface contract of round.Round.Finalize (what the handler relies on)
+//@   ensures !closed(out)
+//@   ensures result1 == nil ==> result0 != nil
+//@   ensures typeis(result0, *round.Abort) ==> result0.(*round.Abort).Err != nil
+//@   ensures typeis(result0, *round.Output) ==> result0.(*round.Output).Result != nil
 //@ func (*round5).Finalize
 //@   nopanic[C05]
 //@   requires r != nil && sg4ok(r.round4) && r.R != nil && r.BigR != nil && r.PublicKey != nil && len(r.Message) > 0
 //@   requires forall(j, party.ID, inslice(r.Helper.partyIDs, j) ==> r.SigmaShares[j] != nil)
+// refinement of the interface contract of round.Round.Finalize (what the handler relies on)
+//@   ensures result1 == nil ==> result0 != nil
+//@   ensures typeis(result0, *round.Abort) ==> result0.(*round.Abort).Err != nil
+//@   ensures typeis(result0, *round.Output) ==> result0.(*round.Output).Result != nil
